@@ -131,8 +131,11 @@ class StateMachine(metaclass=StateMachineMetaclass):
         state = self.__dict__.copy()
         state["_rtc"] = self._engine._rtc
         # only a machine that was not activated yet (async, before the first event) still has
-        # its initial activation ahead
-        state["_activation_pending"] = self.current_state_value is None
+        # its initial activation ahead: the activation trigger is still waiting in the queue
+        initial_trigger = self._engine._initial_trigger
+        state["_activation_pending"] = any(
+            trigger is initial_trigger for trigger in self._engine._external_queue
+        )
         del state["_callbacks"]
         del state["_states_for_instance"]
         del state["_engine"]
